@@ -785,6 +785,12 @@ tc_generate(const char *path, int kind, tc_mut m)
                 SDsetdimscale(SDgetdimid(s, rk - 1), dm[rk - 1], DFNT_INT16, sc);
                 SDsetdimstrs(SDgetdimid(s, rk - 1), "axis", "m", "%d");
             }
+            if (rk >= 2) {
+                /* a dimension that carries strings and an attribute of its own but no scale */
+                int32 da = 7 + k;
+                SDsetdimstrs(SDgetdimid(s, 0), "rows", "count", NULL);
+                SDsetattr(SDgetdimid(s, 0), "dim_note", DFNT_INT32, 1, &da);
+            }
             sdsref[k] = SDidtoref(s);
             SDendaccess(s);
         }
